@@ -25,7 +25,8 @@ func c15(c *Ctx) {
 	r.Decides("an update (which may change the parent link) is recorded only after a validator that walks the ancestor chain of the new parent and rejects when it meets the quota itself (no cycles)")
 	r.Decides("the three maps are accessed only under quotaTopology.lock (write lock for writes)")
 	r.Decides("for a non-root parent the ancestor walk cannot be skipped; only quotas labelled is-root=true are exempt from the children-min-sum check")
-	r.Declines("min-sum arithmetic, key-set agreement of min/max dimensions, namespace uniqueness as a counting property")
+	r.Declines("min-sum arithmetic, key-set agreement of dimensions along the tree, namespace uniqueness as a counting property")
+	c15items(c)
 
 	entries := map[string]*ssa.Function{}
 	for _, n := range []string{"ValidAddQuota", "ValidUpdateQuota", "ValidDeleteQuota"} {
